@@ -17,7 +17,7 @@ import plumpy
 from plumpy import process_states as ps
 from plumpy.process_comms import MESSAGE_TEXT_KEY
 
-from . import programs
+from . import generated, programs
 from .driver import BudgetExceeded, Driver, describe_errors
 from .programs import ProgError, _jsonable
 
@@ -211,6 +211,13 @@ class _OneShotWatcher:
         self.seen += 1
         if machine.has_terminated():
             machine.remove_state_event_callback(self.hook, self.entered)
+
+
+class OwnWaiting(ps.Waiting):
+    """A WAITING state class of an application's own"""
+
+
+generated.register(OwnWaiting, 'OwnWaiting')
 
 
 class Run:
@@ -441,6 +448,19 @@ class Run:
         with Driver(self.budget) as drv:
             self.drv = drv
             cls = self._make_class()
+            if case.get('own_waiting_state'):
+                # the application plugs in a WAITING state class of its own (get_state_classes), a subclass of the library's -- as the
+                # library's own WorkChain does: whatever is valid "from Waiting" is valid from it
+                base_cls = cls
+
+                class WithOwnWaiting(base_cls):
+                    @classmethod
+                    def get_state_classes(cls_):
+                        states = super().get_state_classes()
+                        states[ps.ProcessState.WAITING] = OwnWaiting
+                        return states
+
+                cls = WithOwnWaiting
             if case.get('late_fault'):
                 # fault: the application's on_terminated fails (once) after the library's part of it has run, i.e. when the process is in its
                 # terminal state and closed already
